@@ -15,8 +15,10 @@ package main
 
 import (
 	"go/ast"
+	"go/constant"
 	"go/token"
 	"go/types"
+	"strconv"
 	"strings"
 )
 
@@ -40,6 +42,7 @@ func mutAnRule(w *World, r *Result, only func(rel string) bool) int {
 	shiftSkipRule(w, r, only)
 	sepIndexRule(w, r, only)
 	worklistRangeRule(w, r, only)
+	cutsetRule(w, r, only)
 	for _, fi := range sortedFuncs(w) {
 		rel := w.Rel(fi.Obj.Pkg())
 		if fi.Decl.Body == nil || !strings.HasPrefix(rel, "generator") || (only != nil && !only(rel)) {
@@ -485,6 +488,59 @@ func worklistRangeRule(w *World, r *Result, only func(rel string) bool) int {
 				r.bad("WORKLIST-RANGE", fi.Name, cons, w.Pos(loop.Pos()), "the loop body reaches "+grower.Name+", which appends through a pointer to this slice ("+w.Pos(growAt)+"); `range` read the slice once, so the elements discovered while the loop runs are never processed: what they stand for stays incomplete")
 			} else {
 				r.ok("WORKLIST-RANGE", fi.Name, cons, w.Pos(loop.Pos()), "nothing reached from the loop body appends through a pointer to this slice type", true)
+			}
+			return true
+		})
+	}
+	return n
+}
+
+// cutsetRule (CUTSET): the second argument of strings.Trim / TrimLeft / TrimRight is a SET of characters, not a prefix
+// or suffix: `strings.TrimLeft(s, "REFERENCES ")` also eats the leading R, E, F, N, C, S of what follows. A constant
+// cutset that repeats a character, or that is a word of letters, was meant as a prefix or suffix (TrimPrefix /
+// TrimSuffix / strings.Cut).
+func cutsetRule(w *World, r *Result, only func(rel string) bool) int {
+	n := 0
+	for _, fi := range sortedFuncs(w) {
+		rel := w.Rel(fi.Obj.Pkg())
+		if fi.Decl.Body == nil || (only != nil && !only(rel)) {
+			continue
+		}
+		info := fi.Pkg.TypesInfo
+		ast.Inspect(fi.Decl.Body, func(x ast.Node) bool {
+			call, ok := x.(*ast.CallExpr)
+			if !ok || len(call.Args) != 2 {
+				return true
+			}
+			switch fullName(calleeOf(info, call)) {
+			case "strings.Trim", "strings.TrimLeft", "strings.TrimRight", "bytes.Trim", "bytes.TrimLeft", "bytes.TrimRight":
+			default:
+				return true
+			}
+			tv := info.Types[call.Args[1]]
+			if tv.Value == nil || tv.Value.Kind() != constant.String {
+				return true
+			}
+			n++
+			set := constant.StringVal(tv.Value)
+			seen := map[rune]bool{}
+			dup := false
+			letters := 0
+			for _, c := range set {
+				if seen[c] {
+					dup = true
+				}
+				seen[c] = true
+				if (c >= 'a' && c <= 'z') || (c >= 'A' && c <= 'Z') {
+					letters++
+				}
+			}
+			word := letters >= 3
+			cons := normLocals(info, call)
+			if dup || word {
+				r.bad("CUTSET", fi.Name, cons, w.Pos(call.Pos()), "the second argument of "+fullName(calleeOf(info, call))+" is a set of characters, and "+strconv.Quote(set)+" reads as a word (it repeats a character or spells letters): every leading/trailing character of the text that belongs to the set is removed too, so a name that starts (or ends) with one of these letters is cut")
+			} else {
+				r.ok("CUTSET", fi.Name, cons, w.Pos(call.Pos()), "the cutset is a set of distinct separator characters", true)
 			}
 			return true
 		})
